@@ -341,7 +341,14 @@ func verifGoID() int64 {
 	return id
 }
 
+// VerifTrackLocks switches the per-goroutine lock-mode bookkeeping on (it costs a
+// runtime.Stack call per lock operation, so only the checks that need it enable it).
+var VerifTrackLocks atomic.Bool
+
 func (l *verifLock) set(mode string) {
+	if !VerifTrackLocks.Load() {
+		return
+	}
 	id := verifGoID()
 	l.mu.Lock()
 	if mode == "" {
